@@ -1,5 +1,6 @@
 """C14 count-min never under-estimates and is linear under merge (DESIGN.md section 5 C14): structural clauses."""
 import cm_rules as M
+import cowrite
 
 
 def run(facts, tier):
@@ -9,6 +10,7 @@ def run(facts, tier):
         ("overload siblings", M.overload_siblings, 8, "typed overloads of update and the queries hand the same bytes to the core"),
         ("merge", M.merge_rules, 3, "self merge refused; configuration (incl. full seed) compared; cell-wise sum; totals added"),
         ("configuration guard", M.config_guard, 1, "size limit evaluated without 32-bit wrap-around"),
+        ("couplings", lambda fa: cowrite.obligations(fa, ['count_min_sketch']), 4, "fields that every mutator updates together (counters, extremes, cached values) are still updated together"),
     ):
         o = f(facts)
         obs += o
